@@ -49,10 +49,33 @@ class MInt:
         self.v, self.w, self.s = v, w, s
 
 
+_IDENT_CACHE = {}
+
+
+def _ast_idents(ast):
+    r = _IDENT_CACHE.get(id(ast))
+    if r is None:
+        acc = set()
+
+        def walk(a):
+            if isinstance(a, tuple):
+                if a and a[0] == "id":
+                    acc.add(a[1])
+                for x in a[1:]:
+                    walk(x)
+            elif isinstance(a, list):
+                for x in a:
+                    walk(x)
+        walk(ast)
+        r = _IDENT_CACHE[id(ast)] = tuple(sorted(acc))
+    return r
+
+
 class Evaluator:
     def __init__(self, run, st, old_mem, env, phase="post", assigned=None, assume=False):
         self.assume = assume
         self.ringmode = run.mode == "ring"
+        self.groupmode = run.mode == "group"
         self.run = run
         self.st = st
         self.old_mem = old_mem
@@ -63,6 +86,7 @@ class Evaluator:
         self.prog = run.prog
         self.C = run.V.contracts
         self.bound = {}
+        self.readlog = None
         self.havocked = set()
         self.pkg = run.f.get("pkg", "")
 
@@ -101,6 +125,8 @@ class Evaluator:
     def read(self, oid, path, lt, old):
         mem = self.mem_for(old)
         key = (oid, path)
+        if self.readlog is not None and key in mem:
+            self.readlog.append((key, mem[key]))
         if key not in mem:
             # lazily create (slice backing store): same cell in both states if it never existed
             v = self.run.read_cell(self.st, oid, path, lt)
@@ -177,19 +203,63 @@ class Evaluator:
             return self.binary(ast, old)
         if k == "call":
             return self.call(ast[1], ast[2], old)
-        if k == "sum":
+        if k == "gsum":
+            from .group import GLin, lin_add
             _, var, lo, hi, body = ast
             lo = self.conc(self.ev(lo, old))
             hi = self.conc(self.ev(hi, old))
-            acc = self.dom.s_const(0)
+            acc = {}
             saved = self.bound.get(var)
             for i in range(lo, hi):
                 self.bound[var] = i
-                acc = self.dom.s_bin(self.st, "+", acc, self.as_int(self.ev(body, old)))
+                acc = lin_add(acc, self.glin(self.ev(body, old)))
             if saved is None:
                 self.bound.pop(var, None)
             else:
                 self.bound[var] = saved
+            return GLin(acc)
+        if k == "sum":
+            _, var, lo, hi, body = ast
+            lo = self.conc(self.ev(lo, old))
+            hi = self.conc(self.ev(hi, old))
+            # memo: the same sum over cells that still hold the very same values (typical for loop invariants
+            # re-evaluated on every path) is not recomputed
+            names = _ast_idents(ast)
+            mkey = (id(ast), lo, hi, old, tuple(sorted((k_, v_) for k_, v_ in self.bound.items() if isinstance(v_, int))),
+                    tuple((n_, id(self.env[n_])) for n_ in names if n_ in self.env),
+                    tuple((n_, id(self.bound[n_])) for n_ in names if n_ in self.bound and not isinstance(self.bound[n_], int)))
+            memo = self.run.sum_memo.get(mkey)
+            if memo is not None:
+                mem = self.mem_for(old)
+                if all((mem.get(ck) is cv or mem.get(ck) == cv) for ck, cv in memo[0]):
+                    return memo[1]
+            outer_log = self.readlog
+            self.readlog = []
+            acc = self.dom.s_const(0)
+            fast = isinstance(acc, Poly)
+            terms = {}
+            saved = self.bound.get(var)
+            for i in range(lo, hi):
+                self.bound[var] = i
+                t_ = self.as_int(self.ev(body, old))
+                if fast and isinstance(t_, Poly):
+                    for m_, c_ in t_.t.items():
+                        terms[m_] = terms.get(m_, 0) + c_
+                else:
+                    fast = False
+                    acc = self.dom.s_bin(self.st, "+", acc, t_)
+            if saved is None:
+                self.bound.pop(var, None)
+            else:
+                self.bound[var] = saved
+            if terms:
+                acc = Poly(terms) if isinstance(acc, Poly) and not acc.t else self.dom.s_bin(self.st, "+", acc, Poly(terms))
+            log = self.readlog
+            self.readlog = outer_log
+            if outer_log is not None:
+                outer_log.extend(log)
+            if len(log) < 2000:
+                self.run.sum_memo[mkey] = (log, acc)
             return acc
         if k in ("forall", "exists"):
             _, var, lo, hi, body = ast
@@ -335,6 +405,10 @@ class Evaluator:
             from .ring import RInt, RCanon
             if isinstance(x, (RInt, RCanon)) or isinstance(y, (RInt, RCanon)):
                 return self.ring_binary(op, x, y)
+        if self.groupmode:
+            from .group import GLin
+            if isinstance(x, GLin) or isinstance(y, GLin):
+                return self.group_equal(op, x, y)
         if op in ("==", "!="):
             r = self.equal(x, y)
             return r if op == "==" else mk_not(r)
@@ -398,6 +472,8 @@ class Evaluator:
     def call(self, name, args, old):
         if self.ringmode and name in RING_BUILTINS:
             return self.ring_call(name, args, old)
+        if self.groupmode and name in GROUP_BUILTINS:
+            return self.group_call(name, args, old)
         if name in self.C.defines:
             params, body = self.C.defines[name]
             if len(params) != len(args):
@@ -496,6 +572,11 @@ class Evaluator:
                     ii = self.prog.int_info(lt)
                     if ii:
                         parts.append(self.run.int_cmp("==", cur, oldv, ii[1]))
+                    elif self.groupmode and self.prog.kind(lt) == "opaque":
+                        if self.assume and (o, p) in self.havocked:
+                            self.st.mem[(o, p)] = oldv
+                        else:
+                            parts.append(cur == oldv)
                     elif self.ringmode and self.prog.kind(lt) == "opaque":
                         if self.assume and (o, p) in self.havocked:
                             self.st.mem[(o, p)] = oldv
@@ -803,3 +884,141 @@ def _ring_methods():
 
 
 _ring_methods()
+
+
+# ================================================================== group mode (tier G)
+
+GROUP_BUILTINS = {"pt", "smul", "gadd", "gneg", "gid", "gbase", "gsel", "gvalid", "init", "wf", "elems", "validc",
+                  "samepoint", "validP1", "validP2", "validC", "validA"}
+
+
+def _group_methods():
+    from .group import GVal, GLin, lin_add, lin_scale, lin_eq
+
+    def gv(self, ref):
+        if not isinstance(ref, Ref):
+            raise VerifError("point reference expected, got %r" % (ref,))
+        t = self.run.loc_type(ref.ptr.obj, ref.ptr.path)
+        if self.prog.kind(t) == "ptr":
+            ref = self.deref(ref)
+            t = self.run.loc_type(ref.ptr.obj, ref.ptr.path)
+        if self.prog.kind(t) != "opaque":
+            raise VerifError("not a point-typed location: %s" % t)
+        v = self.read(ref.ptr.obj, ref.ptr.path, t, ref.old)
+        if not isinstance(v, GVal):
+            raise VerifError("not a group value: %r" % (v,))
+        return v, ref
+
+    def gsetcell(self, ref, val):
+        for mem in ((self.st.mem,) if not ref.old else (self.old_mem,)):
+            mem[(ref.ptr.obj, ref.ptr.path)] = val
+
+    def glin(self, x):
+        if isinstance(x, GLin):
+            return x.lin
+        raise VerifError("group value expected, got %r" % (x,))
+
+    def group_call(self, name, args, old):
+        dom = self.dom
+        if name == "pt":
+            v, ref = self.gv(self.ev(args[0], old))
+            g = GLin(v.lin)
+            g.ref = ref
+            g.val = v
+            return g
+        if name == "gid":
+            return GLin({})
+        if name == "gbase":
+            return GLin({"B": Poly.const(1)})
+        if name == "gadd":
+            return GLin(lin_add(self.glin(self.ev(args[0], old)), self.glin(self.ev(args[1], old))))
+        if name == "gneg":
+            return GLin(lin_scale(self.glin(self.ev(args[0], old)), Poly.const(-1)))
+        if name == "smul":
+            k = self.as_int(self.ev(args[0], old))
+            return GLin(lin_scale(self.glin(self.ev(args[1], old)), k))
+        if name == "gsel":
+            c = self.bool_of(self.ev(args[0], old))
+            a = self.glin(self.ev(args[1], old))
+            b = self.glin(self.ev(args[2], old))
+            if c is True:
+                return GLin(a)
+            if c is False:
+                return GLin(b)
+            out = {}
+            for at in sorted(set(a) | set(b)):
+                out[at] = dom.ite(self.st, c, a.get(at, Poly.const(0)), b.get(at, Poly.const(0)), 64, True) if a.get(at) != b.get(at) else a[at]
+            return GLin(out)
+        if name in ("gvalid", "validc", "validP1", "validP2", "validC", "validA"):
+            v, ref = self.gv(self.ev(args[0], old))
+            if self.assume:
+                if (ref.ptr.obj, ref.ptr.path) in self.havocked or name == "gvalid":
+                    nv = GVal(v.lin, True, True, v.raw)
+                    self.gsetcell(ref, nv)
+                    if ref.old and self.st.mem.get((ref.ptr.obj, ref.ptr.path)) is v:
+                        self.st.mem[(ref.ptr.obj, ref.ptr.path)] = nv
+                    return True
+                return v.init if v.wf else False
+            return v.init if v.wf else False
+        if name == "init":
+            v, ref = self.gv(self.ev(args[0], old))
+            return v.init
+        if name == "elems":
+            return True
+        if name == "wf":
+            v, ref = self.gv(self.ev(args[0], old))
+            if self.assume and not v.wf:
+                nv = GVal(v.lin, True, v.init, v.raw)
+                self.gsetcell(ref, nv)
+                if ref.old and self.st.mem.get((ref.ptr.obj, ref.ptr.path)) is v:
+                    self.st.mem[(ref.ptr.obj, ref.ptr.path)] = nv
+                return True
+            return v.wf
+        if name == "samepoint":
+            x, xr = self.gv(self.ev(args[0], old))
+            y, yr = self.gv(self.ev(args[1], old))
+            if self.assume and not xr.old and (xr.ptr.obj, xr.ptr.path) in self.havocked:
+                self.gsetcell(xr, y)
+                return True
+            if x.raw == y.raw:
+                return True
+            if self.assume:
+                raise VerifError("samepoint can only be assumed by assignment")
+            return mk_and(lin_eq(dom, x.lin, y.lin), x.wf == y.wf, mk_iff(x.init, y.init))
+        raise VerifError("group builtin %s" % name)
+
+    def group_equal(self, op, x, y):
+        if op not in ("==", "!="):
+            raise VerifError("operator %s on group values" % op)
+        if self.assume and op == "==":
+            for a, b in ((x, y), (y, x)):
+                ref = getattr(a, "ref", None)
+                pristine = ref is not None and self.phase == "pre" and len(a.val.lin) == 1 and not any(
+                    at in self.glin(b) for at in a.val.lin)
+                if ref is not None and (pristine or (not ref.old and (ref.ptr.obj, ref.ptr.path) in self.havocked)) and not getattr(b, "ref", None) is ref:
+                    old = a.val
+                    nv = GVal(self.glin(b), old.wf, old.init, old.raw)
+                    if pristine:
+                        # entry-state fact about an input nobody has read yet: the input simply is that value
+                        for mem in (self.st.mem, self.old_mem):
+                            if mem.get((ref.ptr.obj, ref.ptr.path)) is old:
+                                mem[(ref.ptr.obj, ref.ptr.path)] = nv
+                    else:
+                        self.gsetcell(ref, nv)
+                    return True
+        r = lin_eq(self.dom, self.glin(x), self.glin(y))
+        if r is True:
+            return True if op == "==" else False
+        if self.assume:
+            # equal coefficients are sufficient, not necessary, for equality in the group: such a formula must
+            # never become a hypothesis (it would be stronger than the fact it stands for)
+            raise VerifError("a group equality can only be assumed by assignment to a freshly written location")
+        if op == "!=":
+            raise VerifError("group disequality is not expressible by coefficients")
+        return r
+
+    for f in (gv, gsetcell, glin, group_call, group_equal):
+        setattr(Evaluator, f.__name__, f)
+
+
+_group_methods()
